@@ -60,7 +60,7 @@ theorem c11_key_deterministic (H : Bytes → Bytes) (fs : List Field) (ho : orde
 /-- hypotheses of `c11_key_deterministic`: three values iterated in opposite orders -/
 example : ordered remoteAuthorizer = true ∧ Reorder envA envA' ∧ envA.nodupKeys :=
   ⟨by decide, ⟨rfl, rfl, rfl, rfl, fun _ => (List.reverse_perm _).symm⟩,
-   fun s => by by_cases h : s = "arg1" <;> simp [envA, h]⟩
+   fun s => by by_cases h : s = "values" <;> simp [envA, h]⟩
 
 /-- …and that condition is needed: a direct range over a map (as in the original `Endpoint.Hash` and
 `calculateCacheKey`) makes the written bytes depend on the iteration order as soon as the map has two entries. -/
@@ -140,7 +140,7 @@ the same token under two rules, then another token -/
 example : ∃ h : List (Nat × KReq), h.length = 3 ∧ (∀ tr ∈ h, wt introspection tr.2.env = true) ∧
     NoCollisionOn id (h.map fun tr => encode introspection tr.2.env) ∧
     delimited introspection = true ∧ covers (deps "introspection") introspection = true := by
-  let e (tok : Bytes) : Env := { str := fun s => if s = "arg2" then tok else if s = "recv.id" then [105] else [] }
+  let e (tok : Bytes) : Env := { str := fun s => if s = "token" then tok else if s = "id" then [105] else [] }
   refine ⟨[(0, ⟨e [116, 49], 0, true, 600⟩), (1, ⟨e [116, 49], 1, true, 600⟩), (2, ⟨e [116, 50], 1, true, 600⟩)], rfl,
     ?_, fun _ _ _ _ h => h, by decide, by decide⟩
   intro tr htr
@@ -307,8 +307,8 @@ example : ∃ (env env' ei ei' : Env),
 
 /-- the nested digests of the current source: every `….Hash()` a mechanism key writes is a length-prefixed field, and
 the function computing it is delimited (so `c11_nested_digest` applies to subject, endpoint, signer, strategies, templates) -/
-example : Field.lp "arg0.Hash()" ∈ remoteAuthorizer ∧ Field.lp "recv.e.Hash()" ∈ remoteAuthorizer ∧
-    Field.lp "arg1.Hash()" ∈ jwtFinalizer ∧ Field.lp "recv.signer.Hash()" ∈ jwtFinalizer ∧
+example : Field.lp "subject" ∈ remoteAuthorizer ∧ Field.lp "endpoint" ∈ remoteAuthorizer ∧
+    Field.lp "subject" ∈ jwtFinalizer ∧ Field.lp "signer" ∈ jwtFinalizer ∧
     delimited subject = true ∧ delimited endpoint = true ∧ delimited jwtSigner = true ∧ delimited template = true := by
   decide
 
